@@ -47,14 +47,15 @@ pub struct ValueRef<'v> {
     ty: &'v Arc<Final>,
 }
 
-// Because two equal values may have different bit offsets, we must manually
+// Because two equal values may have different bit offsets, and because the
+// padded representation contains padding bits (and bits beyond the width of the
+// value) whose content depends on how the value was produced, we must manually
 // implement the comparison traits. We do so by first comparing types, which
-// is constant overhead (this just compares TMRs). If those match, we know
-// the lengths and structures match, so we then compare the underlying byte
-// iterators.
+// is constant overhead (this just compares TMRs). If those match, we compare
+// the compact bit encodings, which are canonical for a given type.
 impl PartialEq for Value {
     fn eq(&self, other: &Self) -> bool {
-        self.ty == other.ty && self.raw_byte_iter().eq(other.raw_byte_iter())
+        self.ty == other.ty && self.iter_compact().eq(other.iter_compact())
     }
 }
 impl Eq for Value {}
@@ -68,7 +69,7 @@ impl Ord for Value {
     fn cmp(&self, other: &Self) -> core::cmp::Ordering {
         self.ty
             .cmp(&other.ty)
-            .then_with(|| self.raw_byte_iter().cmp(other.raw_byte_iter()))
+            .then_with(|| self.iter_compact().cmp(other.iter_compact()))
     }
 }
 
@@ -76,8 +77,8 @@ impl core::hash::Hash for Value {
     fn hash<H: core::hash::Hasher>(&self, h: &mut H) {
         b"Simplicity\x1fValue".hash(h);
         self.ty.hash(h);
-        for val in self.raw_byte_iter() {
-            val.hash(h);
+        for bit in self.iter_compact() {
+            bit.hash(h);
         }
     }
 }
